@@ -157,3 +157,227 @@ def stream(rng, n):
         if rng.random() < 0.3:
             out.append(Case(argv, data, entry="main", seg=seg))
     return out
+
+
+# ---------------------------------------------------------------- relational families
+# Cases that belong together carry tags = {"grp": <id>, "role": <name>}; the property's oracle
+# evaluates the relation on the implementation's own results.
+
+def _uniform_input(rng, mode, n, delim=b"-", eol=b"\n", nrec=None):
+    """an input whose records all have exactly n parts (or an input of n bytes / n lines)"""
+    if mode == "b":
+        return bytes(rng.choice(ALPHA_BIN) for _ in range(n))
+    if mode == "l":
+        pool = [b"", b"a", b"bc", "é".encode(), b"l 3", b"\r"]
+        ls = [rng.choice(pool) for _ in range(n)]
+        if ls and ls[-1] == b"" and rng.random() < 0.5:
+            ls[-1] = b"z"
+        return eol.join(ls) + (eol if (ls and (ls[-1] == b"" or rng.random() < 0.7)) else b"")
+    recs = []
+    for _ in range(nrec or rng.randint(1, 3)):
+        if mode == "c":
+            pool = [c for c in ["a", "b", "é", "€", "𝄞", " ", "-", "\t"] if c.encode() != eol]
+            recs.append("".join(rng.choice(pool) for _ in range(n)).encode())
+        else:
+            alpha = [c for c in b"abc xyz" if bytes([c]) != eol and c not in delim]
+            fs = [bytes(rng.choice(alpha) for _ in range(rng.randint(0 if n > 1 else 1, 3))) for _ in range(n)]
+            if n > 0 and all(f == b"" for f in fs):
+                fs[0] = b"q"
+            recs.append(delim.join(fs))
+    return eol.join(recs) + (eol if rng.random() < 0.7 else b"")
+
+
+def _sbound(rng, n, over=0.15):
+    """structured bound (l, r, fb) with indexes mostly within +-n"""
+    def idx():
+        k = rng.randint(1, max(1, n)) if rng.random() > over else n + rng.randint(1, 2)
+        return -k if rng.random() < 0.5 else k
+    r = rng.random()
+    if r < 0.4:
+        v = idx(); b = (v, v)
+    elif r < 0.7:
+        a, z = idx(), idx()
+        if (a > 0) == (z > 0) and a > z:
+            a, z = z, a
+        b = (a, z)
+    elif r < 0.85:
+        b = (idx(), None)
+    else:
+        b = (None, idx())
+    fb = rng.choice([None, None, None, "x", ""])
+    return b + (fb,)
+
+
+def _render(b):
+    l, r, fb = b
+    if l is not None and l == r:
+        s = str(l)
+    else:
+        s = ("" if l is None else str(l)) + ":" + ("" if r is None else str(r))
+    return s + ("" if fb is None else "=" + fb)
+
+
+def _mirror(rng, b, n, p=0.7):
+    """rewrite a random subset of the negative indexes -k (1<=k<=n) into n+1-k, keeping the
+    bound well-formed"""
+    l, r, fb = b
+    def mv(v):
+        if v is not None and v < 0 and -n <= v and rng.random() < p:
+            return n + 1 + v
+        return v
+    if l is not None and l == r:
+        v = mv(l)
+        return (v, v, fb)
+    l2, r2 = mv(l), mv(r)
+    if l2 is not None and r2 is not None and (l2 > 0) == (r2 > 0) and l2 > r2:
+        return b            # would not be well-formed: leave it as written
+    return (l2, r2, fb)
+
+
+def c09(rng, count):
+    out = []
+    g = 0
+    while len(out) < count:
+        g += 1
+        mode = rng.choice("ffcbl")
+        n = rng.randint(1, 5)
+        bs = [_sbound(rng, n) for _ in range(rng.randint(1, 3))]
+        bs2 = [_mirror(rng, b, n) for b in bs]
+        if bs2 == bs:
+            bs2 = [_mirror(rng, b, n, 1.0) for b in bs]
+        z = rng.random() < 0.15 and mode != "b"
+        eol = b"\0" if z else b"\n"
+        delim = rng.choice([b"-", b",", b"--", b"ab"])
+        extra = []
+        if mode == "f":
+            extra += ["-d", delim]
+            if rng.random() < 0.3: extra.append("-j")
+            if rng.random() < 0.2: extra += ["-r", "/"]
+            if rng.random() < 0.15: extra.append("--json")
+            if rng.random() < 0.1: extra.append("-m")
+        if mode == "l" and rng.random() < 0.2: extra.append("--no-join")
+        if mode == "c" and rng.random() < 0.15: extra.append("--json")
+        if rng.random() < 0.2: extra += ["--fallback-oob", "G"]
+        if z: extra.append("-z")
+        if "--json" in extra and "-r" in extra: extra = [e for e in extra if e not in ("-r", "/")]
+        data = _uniform_input(rng, mode, n, delim, eol)
+        for role, bb in (("orig", bs), ("mirrored", bs2)):
+            argv = ["-" + mode, ",".join(_render(b) for b in bb)] + extra
+            out.append(Case(argv, data, tags={"grp": g, "role": role, "n": n}))
+    return out
+
+
+def c10(rng, count):
+    out = []
+    g = 0
+    while len(out) < count:
+        g += 1
+        kind = rng.choice(["general", "fast", "chars", "json", "stream", "regex"])
+        delim = rng.choice([b"-", b",", b"--", b"ab"]) if kind in ("general", "json") else rng.choice([b"-", b","])
+        z = rng.random() < 0.15
+        eol = b"\0" if z else b"\n"
+        if kind == "general":
+            argv = ["-d", delim, "-f", gen_bounds(rng)] + field_opts(rng, delim)
+            if not any(a in argv for a in ("-g", "-p", "-r", "-m")) and len(delim) == 1:
+                argv.append(rng.choice(["-g", "-p"]))
+        elif kind == "fast":
+            argv = ["-d", delim, "-f", gen_bounds(rng, hi=6, neg=rng.choice([0, 0, 0.3]))] + field_opts(rng, delim, fast=True)
+        elif kind == "chars":
+            argv = ["-c", gen_bounds(rng, hi=4)]
+        elif kind == "json":
+            argv = ["--json", "-d", delim, "-f", gen_bounds(rng, fmt=0)] + (["-p"] if rng.random() < 0.3 else [])
+        elif kind == "regex":
+            argv = ["-e", rng.choice(["-+", "[-,]", "-|,,"]), "-f", gen_bounds(rng), "-r", "/"] + (["-p"] if rng.random() < 0.3 else [])
+        else:
+            argv = ["-M", "1", "-d", delim, "-f", gen_forward_bounds(rng)] + (["-j"] if rng.random() < 0.3 else [])
+        if rng.random() < 0.3 and "--fallback-oob" not in argv:
+            argv += ["--fallback-oob", "G"]
+        if z: argv.append("-z")
+        if kind == "chars":
+            A = "".join(utf8_text(rng, 4).replace("\n", "").replace("\0", "") + eol.decode() for _ in range(rng.randint(1, 3))).encode()
+            B = (eol.decode().join(utf8_text(rng, 4).replace("\n", "").replace("\0", "") for _ in range(rng.randint(0, 2)))).encode()
+        else:
+            alpha = pick_alphabet(rng, delim, eol)
+            A = gen_input(rng, delim, alpha, eol, maxrec=3, final_eol_p=1.0, maxfields=7)
+            if not A:
+                A = eol
+            B = gen_input(rng, delim, alpha, eol, maxrec=3, maxfields=7)
+        for role, d in (("A", A), ("B", B), ("AB", A + B)):
+            out.append(Case(argv, d, tags={"grp": g, "role": role}))
+    return out
+
+
+def c13(rng, count):
+    """every mode / path with bounds that overshoot in either direction, on either side"""
+    out = []
+    k = max(1, count // 8)
+    def hot(b):   # more out-of-range indexes and more fallbacks
+        return b
+    out += fields(rng, 2 * k) + [c for c in fast(rng, k)] + bytes_mode(rng, k) + lines(rng, k)
+    out += chars(rng, k) + jsonf(rng, k) + stream(rng, k)
+    return out
+
+
+def c15(rng, count):
+    out = []
+    g = 0
+    while len(out) < count:
+        g += 1
+        mode = rng.choice("ffl")
+        n = rng.randint(1, 5)
+        bs = []
+        for _ in range(rng.randint(1, 3)):
+            b = _sbound(rng, n, over=0.0)
+            bs.append((b[0], b[1], None))
+        # resolve in python (the property's own arithmetic) to write the equivalent request
+        def pos(v): return n + 1 + v if v < 0 else v
+        eq = []
+        ok = True
+        for (l, r, _) in bs:
+            s = 1 if l is None else pos(l)
+            e = n if r is None else pos(r)
+            if not (1 <= s <= e <= n):
+                ok = False
+                break
+            if s > 1: eq.append("1:%d" % (s - 1) if s - 1 > 1 else "1")
+            if e < n: eq.append("%d:" % (e + 1))
+        if not ok:
+            continue
+        z = rng.random() < 0.15
+        eol = b"\0" if z else b"\n"
+        delim = rng.choice([b"-", b",", b"--"])
+        extra = []
+        if mode == "f":
+            extra += ["-d", delim]
+            r = rng.random()
+            if r < 0.3: extra.append("-j")
+            elif r < 0.5: extra += ["-r", "/"]
+            elif r < 0.7: extra.append("--json")
+        if z: extra.append("-z")
+        data = _uniform_input(rng, mode, n, delim, eol)
+        out.append(Case(["-" + mode, ",".join(_render(b) for b in bs), "-m"] + extra, data,
+                        tags={"grp": g, "role": "complement", "empty": not eq}))
+        if eq:
+            out.append(Case(["-" + mode, ",".join(eq)] + extra + (["-g"] if (mode == "f" and "--json" not in extra and len(delim) == 1 and "-r" not in extra and False) else []),
+                            data, tags={"grp": g, "role": "equivalent"}))
+    return out
+
+
+def c15_varied(rng, count):
+    """-m on inputs whose records have different numbers of parts (correspondence only)"""
+    out = []
+    for _ in range(count):
+        delim = rng.choice([b"-", b",", b"--", b"ab"])
+        z = rng.random() < 0.15
+        eol = b"\0" if z else b"\n"
+        argv = ["-d", delim, "-f", gen_bounds(rng, hi=4, fb=0.1, fmt=0.1), "-m"]
+        r = rng.random()
+        if r < 0.25: argv.append("-j")
+        elif r < 0.45: argv += ["-r", "/"]
+        elif r < 0.6 and "{" not in argv[3]: argv.append("--json")
+        if rng.random() < 0.15: argv.append("-p")
+        if rng.random() < 0.15: argv.append("-s")
+        if z: argv.append("-z")
+        alpha = [c for c in b"abc xy" if bytes([c]) != eol]
+        out.append(Case(argv, gen_input(rng, delim, alpha, eol, maxrec=4, maxfields=6)))
+    return out
